@@ -74,6 +74,7 @@ class Ctx:
     self._restruct = {}
     self.robust = ()
     self.reflective = []
+    self._publish_constants()
     self._reflective_scan()
 
   # ---- engine access
@@ -172,6 +173,27 @@ class Ctx:
 
   # test-support modules: imported only by *_test.py (and by each other); verified on every run
   TEST_SUPPORT = ('note_seq.testing_lib', 'note_seq.protobuf.compare')
+
+  def _publish_constants(self):
+    """nf.GLOBAL_CONSTS: UPPER_CASE module-level names bound once to a number (folded), with one value program-wide."""
+    from . import nf, fold
+    fd = fold.Folder(self.P, self.S)
+    vals = {}
+    for mi in self.P.modules.values():
+      if mi.name in getattr(self, 'TEST_SUPPORT', ()):
+        continue
+      for name, defs in mi.assigns.items():
+        if not (name.isupper() or (name.startswith('_') and name[1:].isupper())) or len(defs) != 1:
+          continue
+        try:
+          v = fd.module_const(mi, name)
+        except Exception:
+          continue
+        if isinstance(v, bool) or not isinstance(v, (int, float)):
+          continue
+        vals.setdefault(name, set()).add(v)
+    nf.GLOBAL_CONSTS.clear()
+    nf.GLOBAL_CONSTS.update((k, next(iter(v))) for k, v in vals.items() if len(v) == 1)
 
   def _reflective_scan(self):
     bad = []
